@@ -1050,8 +1050,14 @@ impl Hist {
                 let kind = r.pick(&["upd", "cf", "cf", "close", "reset", "reset"]);
                 // close / reset need an empty position to succeed: prefer one when there is one
                 let empties: Vec<u32> = ids.iter().copied().filter(|i| w.pos(*i).map(|q| Position::is_position_empty(&q)).unwrap_or(false)).collect();
+                // collect_fees is only interesting on a position that is OWED fees (the reset of the owed amounts, the vault
+                // movement): prefer one when there is one
+                let owed: Vec<u32> = ids.iter().copied().filter(|i| w.pos(*i).map(|q| q.fee_owed_a > 0 || q.fee_owed_b > 0).unwrap_or(false)).collect();
                 let (id, p) = if (kind == "close" || kind == "reset") && !empties.is_empty() && r.chance(2, 3) {
                     let i = r.pick(&empties);
+                    (i, w.pos(i).unwrap())
+                } else if kind == "cf" && !owed.is_empty() && r.chance(3, 4) {
+                    let i = r.pick(&owed);
                     (i, w.pos(i).unwrap())
                 } else {
                     (id, p)
@@ -1174,6 +1180,9 @@ impl Hist {
                     0
                 };
                 let auth = if kind == "crew" && r.chance(1, 8) { 5 } else { r.pick(&[0u8, 0, 0, 0, 0, 1, 2, 3, 4]) };
+                // collect_reward: prefer a position that is owed some of this reward
+                let rowed: Vec<u32> = ids.iter().copied().filter(|i| w.pos(*i).map(|q| q.reward_infos[idx].amount_owed > 0).unwrap_or(false)).collect();
+                let id = if kind == "crew" && !rowed.is_empty() && r.chance(3, 4) { r.pick(&rowed) } else { id };
                 format!("H xrew {} {} {} {} {} {} {} {}", kind, if r.chance(1, 2) { 1 } else { 2 }, idx, id, auth, value, fa, fb)
             }
             49 if r.chance(1, 4) => format!("H xclose22 {} {}", id, r.pick(&[0u8, 0, 0, 0, 1, 2])),
